@@ -1,7 +1,7 @@
 """Driver of the real dtml-tree: one request = one rendering with the cookie of the previous one."""
 import re
 
-SRC = '<dtml-tree root>ROW:<dtml-var tpId>;</dtml-tree>'
+SRC = '<dtml-tree root>ROW:<dtml-var uid>;</dtml-tree>'
 _t = {}
 DEFAULT_OPT = {'ac': False, 'leaves': False, 'hf': False, 'single': False, 'rev': False, 'sorted': False}
 
@@ -29,15 +29,15 @@ def source(opt, variant=0):
         a += ' sort=rank'
     if opt.get('rev'):
         a += ' reverse'
-    return '<dtml-tree %s>ROW:<dtml-var %s>;</dtml-tree>' % (a, idattr)
+    return '<dtml-tree %s>ROW:<dtml-var uid>;</dtml-tree>' % a
 
 
 def docs():
     from DocumentTemplate.DT_HTML import HTML
     d = _t.get('__docs__')
     if d is None:
-        d = _t['__docs__'] = {'hd': HTML('HEAD:<dtml-var tpId>;'), 'ft': HTML('FOOT:<dtml-var tpId>;'),
-                              'lf': HTML('LEAF:<dtml-var tpId>;')}
+        d = _t['__docs__'] = {'hd': HTML('HEAD:<dtml-var uid>;'), 'ft': HTML('FOOT:<dtml-var uid>;'),
+                              'lf': HTML('LEAF:<dtml-var uid>;')}
     return d
 
 
@@ -76,18 +76,18 @@ def build(parent, ids=None):
     nodes = [Node(ids[i]) for i in range(n)]
     for i, nd in enumerate(nodes):
         nd.rank = i + 1
+        nd.uid = 'u%d' % (i + 1)         # what the harness identifies rows by; the tag only sees tpId (unique among siblings)
     for i in range(1, n):
         nodes[parent[i] - 1].kids.append(nodes[i])
     return nodes
 
 
-_link = re.compile(r'<a name="([^"]*)" href="([^"?]*)\?(tree-[ec])=([^#"]*)#')
-_row = re.compile(r'(ROW|HEAD|FOOT|LEAF):(.*?);', re.S)
+_tok = re.compile(r'<a name="([^"]*)" href="([^"?]*)\?(tree-[ec])=([^#"]*)#|(ROW|HEAD|FOOT|LEAF):(.*?);', re.S)
 _KIND = {'ROW': 'row', 'HEAD': 'head', 'FOOT': 'foot', 'LEAF': 'leaf'}
 
 
 def request(nodes, cookie=None, click=None, special=None, src=SRC):
-    """returns dict(rows=[ids], links={id: (param, value)}, cookie=str, state=set of ids in the cookie)"""
+    """returns dict(rows=[uids], items=[[kind, uid]], links={uid: (param, value)}, cookie=str, state=set of uids named by the cookie)"""
     from DocumentTemplate.DT_HTML import HTML
     from TreeDisplay import TreeTag
     t = _t.get(src)
@@ -103,23 +103,41 @@ def request(nodes, cookie=None, click=None, special=None, src=SRC):
     if special:
         kw[special] = 1
     out = t(**kw)
-    found = _row.findall(out)
-    rows = [x for k, x in found if k == 'ROW']
-    items = [[_KIND[k], x] for k, x in found]
-    links = {}
-    dup = []
-    for name, href, par, val in _link.findall(out.replace('?k=v&', '?')):
-        if name in links:
-            dup.append(name)
-        links[name] = (par, val)
+    rows, items, links, dup = [], [], {}, []
+    pending = None
+    # a link belongs to the row whose body follows it (the anchor is written before the body of the same node)
+    for name, href, par, val, kind, uid in _tok.findall(out.replace('?k=v&', '?')):
+        if kind:
+            items.append([_KIND[kind], uid])
+            if kind == 'ROW':
+                rows.append(uid)
+                if pending is not None:
+                    links[uid] = pending
+                    pending = None
+        else:
+            if pending is not None:
+                dup.append(name)
+            pending = (par, val)
+    if pending is not None:
+        dup.append('link without a row')
     state = set()
     if resp.cookie is not None:
         dec = TreeTag.decode_seq(resp.cookie)
 
-        def walk(lst):
+        def walk(lst, node):
+            # the state names nodes by id paths: ids are unique among siblings only
             for e in lst:
-                state.add(e[0])
+                hit = [k for k in node.kids if k.nid == e[0]]
+                if not hit:
+                    state.add('unknown:%s' % (e[0],))
+                    continue
+                state.add(hit[0].uid)
                 if len(e) > 1:
-                    walk(e[1])
-        walk(dec)
+                    walk(e[1], hit[0])
+        if dec and dec[0] and dec[0][0] == nodes[0].nid:
+            state.add(nodes[0].uid)
+            if len(dec[0]) > 1:
+                walk(dec[0][1], nodes[0])
+        elif dec:
+            state.add('unknown-root:%r' % (dec[0][:1],))
     return {'rows': rows, 'items': items, 'links': links, 'dup': dup, 'cookie': resp.cookie, 'state': state, 'out': out}
